@@ -1,11 +1,973 @@
-use vcommon::*;
+//! C26 — sync imports network blocks in strictly consecutive order starting right
+//! after the committed height, only after the consensus check of the sealed header
+//! and only with transactions matching the header, and reports peers that supplied
+//! bad data.
+//!
+//! The real `fuel_core_sync::import::Import` is driven through repeated `import()`
+//! rounds (so its header/block cache from failed rounds is reused) against scripted
+//! `PeerToPeerPort` / `ConsensusPort` / `BlockImporterPort` implementations that log
+//! every call. The oracle runs offline over that log and compares with the authentic
+//! chain that the honest answers are cut from.
+
+use fuel_core_services::{
+    SharedMutex,
+    StateWatcher,
+    stream::{
+        BoxStream,
+        IntoBoxStream,
+    },
+};
+use fuel_core_sync::{
+    import::{
+        Config,
+        Import,
+    },
+    ports::{
+        BlockImporterPort,
+        ConsensusPort,
+        PeerReportReason,
+        PeerToPeerPort,
+    },
+    state::State,
+};
+use fuel_core_types::{
+    blockchain::{
+        SealedBlock,
+        SealedBlockHeader,
+        block::Block,
+        consensus::{
+            Consensus,
+            Sealed,
+            poa::PoAConsensus,
+        },
+        header::PartialBlockHeader,
+        primitives::{
+            BlockId,
+            DaBlockHeight,
+        },
+    },
+    fuel_tx::{
+        Bytes32,
+        Transaction,
+        policies::Policies,
+    },
+    fuel_types::BlockHeight,
+    services::p2p::{
+        PeerId,
+        SourcePeer,
+        Transactions,
+    },
+    tai64::Tai64,
+};
+use rand::Rng;
+use std::{
+    collections::{
+        BTreeMap,
+        BTreeSet,
+        HashMap,
+    },
+    ops::Range,
+    sync::{
+        Arc,
+        Mutex,
+    },
+};
+use tokio::sync::Notify;
+use vcommon::{
+    serde_json::{
+        Value,
+        json,
+    },
+    *,
+};
+
+// ------------------------------------------------------------------ chain
+
+fn mk_tx(id: u64) -> Transaction {
+    Transaction::script(0, vec![], id.to_be_bytes().to_vec(), Policies::new(), vec![], vec![], vec![]).into()
+}
+
+fn mk_block(height: u32, tx_ids: &[u64], nonce: u64) -> SealedBlock {
+    let mut header = PartialBlockHeader::default();
+    header.consensus.height = height.into();
+    header.consensus.time = Tai64(nonce);
+    header.application.da_height = DaBlockHeight(u64::from(height) / 3);
+    let txs: Vec<Transaction> = tx_ids.iter().map(|i| mk_tx(*i)).collect();
+    Sealed {
+        entity: Block::new(header, txs, &[], Bytes32::zeroed()).expect("block"),
+        consensus: Consensus::PoA(PoAConsensus::new(Default::default())),
+    }
+}
+
+fn header_of(b: &SealedBlock) -> SealedBlockHeader {
+    Sealed {
+        entity: b.entity.header().clone(),
+        consensus: b.consensus.clone(),
+    }
+}
+
+fn peer(i: u8) -> PeerId {
+    PeerId::from(vec![i; 4])
+}
+
+fn peer_name(p: &PeerId) -> String {
+    format!("p{}", p.as_ref().first().copied().unwrap_or(0))
+}
+
+// ------------------------------------------------------------------ log
+
+#[derive(Clone, Debug)]
+enum Ev {
+    RoundStart {
+        committed: Option<u32>,
+        observed: u32,
+    },
+    RoundEnd {
+        ok: bool,
+    },
+    Headers {
+        range: Range<u32>,
+        peer: Option<PeerId>,
+        behaviour: &'static str,
+        ids: Vec<BlockId>,
+        /// fewer headers at the right heights than requested
+        missing: bool,
+    },
+    Txs {
+        range: Range<u32>,
+        peer: Option<PeerId>,
+        behaviour: &'static str,
+        /// data: None (or an error on the from-peer path)
+        missing: bool,
+        /// position of the first list that differs from the authentic one
+        garbage_at: Option<usize>,
+    },
+    Check {
+        id: BlockId,
+        height: u32,
+        verdict: bool,
+    },
+    Exec {
+        height: u32,
+        id: BlockId,
+        authentic_header: bool,
+        authentic_txs: bool,
+        expected_next: Option<u32>,
+        ok: bool,
+    },
+    Report {
+        peer: PeerId,
+        reason: PeerReportReason,
+    },
+}
+
+fn ev_json(e: &Ev) -> Value {
+    match e {
+        Ev::RoundStart { committed, observed } => json!({"k": "round_start", "committed": committed, "observed": observed}),
+        Ev::RoundEnd { ok } => json!({"k": "round_end", "ok": ok}),
+        Ev::Headers {
+            range,
+            peer,
+            behaviour,
+            ids,
+            missing,
+        } => json!({"k": "headers", "range": [range.start, range.end], "peer": peer.as_ref().map(peer_name),
+            "behaviour": behaviour, "n": ids.len(), "missing": missing}),
+        Ev::Txs {
+            range,
+            peer,
+            behaviour,
+            missing,
+            garbage_at,
+        } => json!({"k": "txs", "range": [range.start, range.end], "peer": peer.as_ref().map(peer_name),
+            "behaviour": behaviour, "missing": missing, "garbage_at": garbage_at}),
+        Ev::Check { id, height, verdict } => json!({"k": "check", "h": height, "id": &id.to_string()[..8], "verdict": verdict}),
+        Ev::Exec {
+            height,
+            authentic_header,
+            authentic_txs,
+            expected_next,
+            ok,
+            ..
+        } => json!({"k": "exec", "h": height, "authentic_header": authentic_header, "authentic_txs": authentic_txs,
+            "importer_expected": expected_next, "ok": ok}),
+        Ev::Report { peer, reason } => json!({"k": "report", "peer": peer_name(peer), "reason": format!("{reason:?}")}),
+    }
+}
+
+// ------------------------------------------------------------------ world
+
+struct World {
+    seed: u64,
+    fault: u32,
+    chain: Vec<SealedBlock>,
+    log: Mutex<Vec<Ev>>,
+    attempts: Mutex<HashMap<(u8, u64, u64), u64>>,
+    /// the importer stub's committed height
+    committed: Mutex<Option<u32>>,
+    forged: Mutex<BTreeSet<BlockId>>,
+    nonce: Mutex<u64>,
+}
+
+impl World {
+    fn push(&self, e: Ev) {
+        self.log.lock().unwrap().push(e);
+    }
+
+    fn attempt(&self, kind: u8, a: u64, b: u64) -> u64 {
+        let mut g = self.attempts.lock().unwrap();
+        let n = g.entry((kind, a, b)).or_insert(0);
+        *n += 1;
+        *n
+    }
+
+    fn rng(&self, kind: u8, a: u64, b: u64) -> (rand::rngs::StdRng, u64) {
+        let n = self.attempt(kind, a, b);
+        (rng_for(self.seed, &[kind as u64, a, b, n]), n)
+    }
+
+    fn true_header(&self, h: u32) -> Option<SealedBlockHeader> {
+        self.chain.get(h as usize).map(header_of)
+    }
+
+    fn forged_header(&self, h: u32) -> SealedBlockHeader {
+        let mut n = self.nonce.lock().unwrap();
+        *n += 1;
+        let b = mk_block(h, &[], 1_000_000 + *n);
+        let hd = header_of(&b);
+        self.forged.lock().unwrap().insert(hd.entity.id());
+        hd
+    }
+}
+
+async fn yields(n: u32) {
+    for _ in 0..n {
+        tokio::task::yield_now().await;
+    }
+}
+
+struct P2p(Arc<World>);
+struct Cons(Arc<World>);
+struct Imp(Arc<World>);
+
+#[async_trait::async_trait]
+impl PeerToPeerPort for P2p {
+    fn height_stream(&self) -> BoxStream<BlockHeight> {
+        futures::stream::pending().into_boxed()
+    }
+
+    async fn get_sealed_block_headers(
+        &self,
+        range: Range<u32>,
+    ) -> anyhow::Result<SourcePeer<Option<Vec<SealedBlockHeader>>>> {
+        let w = &self.0;
+        let (mut rng, _) = w.rng(1, range.start as u64, range.end as u64);
+        yields(rng.gen_range(0..4)).await;
+        let p = peer(rng.gen_range(1..=4));
+        let full: Vec<SealedBlockHeader> = range.clone().filter_map(|h| w.true_header(h)).collect();
+        let beyond_chain = full.len() < range.len();
+        let len = full.len();
+        let faulty = chance(&mut rng, w.fault);
+        let behaviour = if !faulty || len == 0 {
+            "full"
+        } else {
+            *pick(
+                &mut rng,
+                &["error", "none", "empty", "short", "wrong_height", "forged", "forged", "extra", "slow"],
+            )
+        };
+        let mut out = full.clone();
+        let mut result_none = false;
+        match behaviour {
+            "error" => {
+                w.push(Ev::Headers {
+                    range,
+                    peer: None,
+                    behaviour,
+                    ids: vec![],
+                    missing: true,
+                });
+                return Err(anyhow::anyhow!("injected p2p error"));
+            }
+            "none" => {
+                result_none = true;
+                out.clear();
+            }
+            "empty" => out.clear(),
+            "short" => out.truncate(rng.gen_range(0..len)),
+            "wrong_height" => {
+                let k = rng.gen_range(0..len);
+                let h = range.start + k as u32;
+                let other = if chance(&mut rng, 50) { h.saturating_add(1) } else { h.saturating_sub(1) };
+                match w.true_header(other) {
+                    Some(hd) if other != h => out[k] = hd,
+                    _ => out.truncate(k),
+                }
+            }
+            "forged" => {
+                let k = rng.gen_range(0..len);
+                out[k] = w.forged_header(range.start + k as u32);
+            }
+            "extra" => {
+                for h in range.end..range.end.saturating_add(2) {
+                    if let Some(hd) = w.true_header(h) {
+                        out.push(hd);
+                    }
+                }
+            }
+            "slow" => yields(rng.gen_range(3..12)).await,
+            _ => {}
+        }
+        // how many leading headers sit at the requested heights
+        let good_prefix = out
+            .iter()
+            .zip(range.clone())
+            .take_while(|(h, want)| **h.entity.height() == *want)
+            .count();
+        let missing = good_prefix < range.len();
+        let _ = beyond_chain;
+        w.push(Ev::Headers {
+            range,
+            peer: Some(p.clone()),
+            behaviour,
+            ids: out.iter().map(|h| h.entity.id()).collect(),
+            missing,
+        });
+        Ok(p.bind(if result_none { None } else { Some(out) }))
+    }
+
+    async fn get_transactions(&self, range: Range<u32>) -> anyhow::Result<SourcePeer<Option<Vec<Transactions>>>> {
+        let w = &self.0;
+        let p = {
+            let mut r = rng_for(w.seed, &[7, range.start as u64, range.end as u64, w.attempt(3, range.start as u64, range.end as u64)]);
+            peer(r.gen_range(1..=4))
+        };
+        match txs_response(w, range, p.clone(), false).await {
+            Ok(data) => Ok(p.bind(data)),
+            Err(e) => Err(e),
+        }
+    }
+
+    async fn get_transactions_from_peer(&self, block_ids: SourcePeer<Range<u32>>) -> anyhow::Result<Option<Vec<Transactions>>> {
+        let SourcePeer { peer_id, data } = block_ids;
+        txs_response(&self.0, data, peer_id, true).await
+    }
+
+    fn report_peer(&self, peer: PeerId, report: PeerReportReason) -> anyhow::Result<()> {
+        self.0.push(Ev::Report { peer, reason: report });
+        let (mut rng, _) = self.0.rng(4, 0, 0);
+        if chance(&mut rng, self.0.fault / 4) {
+            Err(anyhow::anyhow!("injected report failure"))
+        } else {
+            Ok(())
+        }
+    }
+}
+
+async fn txs_response(w: &Arc<World>, range: Range<u32>, p: PeerId, from_peer: bool) -> anyhow::Result<Option<Vec<Transactions>>> {
+    let (mut rng, _) = w.rng(2, range.start as u64, range.end as u64);
+    yields(rng.gen_range(0..4)).await;
+    let full: Vec<Transactions> = range
+        .clone()
+        .filter_map(|h| w.chain.get(h as usize))
+        .map(|b| Transactions(b.entity.transactions().to_vec()))
+        .collect();
+    let len = full.len();
+    let faulty = chance(&mut rng, w.fault);
+    let behaviour = if !faulty || len == 0 {
+        "full"
+    } else {
+        *pick(&mut rng, &["error", "none", "short", "garbage_first", "garbage_any", "extra", "slow"])
+    };
+    let mut out = full.clone();
+    let mut garbage_at = None;
+    match behaviour {
+        "error" => {
+            w.push(Ev::Txs {
+                range,
+                peer: if from_peer { Some(p) } else { None },
+                behaviour,
+                missing: from_peer,
+                garbage_at: None,
+            });
+            return Err(anyhow::anyhow!("injected p2p error"));
+        }
+        "none" => {
+            w.push(Ev::Txs {
+                range,
+                peer: Some(p),
+                behaviour,
+                missing: true,
+                garbage_at: None,
+            });
+            return Ok(None);
+        }
+        "short" => out.truncate(rng.gen_range(0..len)),
+        "garbage_first" | "garbage_any" => {
+            let k = if behaviour == "garbage_first" { 0 } else { rng.gen_range(0..len) };
+            let l = &mut out[k].0;
+            match rng.gen_range(0..3) {
+                0 => l.push(mk_tx(900_000 + rng.gen_range(0..1000))),
+                1 if !l.is_empty() => {
+                    l.pop();
+                }
+                _ => {
+                    l.clear();
+                    l.push(mk_tx(800_000 + rng.gen_range(0..1000)));
+                    l.push(mk_tx(700_000 + rng.gen_range(0..1000)));
+                }
+            }
+            garbage_at = Some(k);
+        }
+        "extra" => out.push(Transactions(vec![mk_tx(600_000)])),
+        "slow" => yields(rng.gen_range(3..12)).await,
+        _ => {}
+    }
+    w.push(Ev::Txs {
+        range,
+        peer: Some(p),
+        behaviour,
+        missing: false,
+        garbage_at,
+    });
+    Ok(Some(out))
+}
+
+impl ConsensusPort for Cons {
+    fn check_sealed_header(&self, header: &SealedBlockHeader) -> anyhow::Result<bool> {
+        let w = &self.0;
+        let id = header.entity.id();
+        let height = **header.entity.height();
+        let idn = u64::from_be_bytes(id.as_slice()[..8].try_into().unwrap());
+        let (mut rng, _) = w.rng(5, idn, 0);
+        let forged = w.forged.lock().unwrap().contains(&id);
+        let authentic = w.true_header(height).map(|h| h.entity.id() == id).unwrap_or(false);
+        let verdict = authentic && !forged && !chance(&mut rng, w.fault / 8);
+        w.push(Ev::Check { id, height, verdict });
+        if !verdict && chance(&mut rng, 40) {
+            Err(anyhow::anyhow!("injected consensus error"))
+        } else {
+            Ok(verdict)
+        }
+    }
+
+    async fn await_da_height(&self, da_height: &DaBlockHeight) -> anyhow::Result<()> {
+        let w = &self.0;
+        let (mut rng, _) = w.rng(6, da_height.0, 0);
+        yields(rng.gen_range(0..3)).await;
+        if chance(&mut rng, w.fault / 4) {
+            Err(anyhow::anyhow!("injected DA wait failure"))
+        } else {
+            Ok(())
+        }
+    }
+}
+
+impl BlockImporterPort for Imp {
+    fn committed_height_stream(&self) -> BoxStream<BlockHeight> {
+        futures::stream::pending().into_boxed()
+    }
+
+    async fn execute_and_commit(&self, block: SealedBlock) -> anyhow::Result<()> {
+        let w = &self.0;
+        let height = **block.entity.header().height();
+        let id = block.entity.id();
+        let (mut rng, _) = w.rng(8, height as u64, 0);
+        yields(rng.gen_range(0..3)).await;
+        let truth = w.chain.get(height as usize);
+        let authentic_header = truth.map(|t| t.entity.id() == id && t.consensus == block.consensus).unwrap_or(false);
+        let authentic_txs = truth
+            .map(|t| t.entity.transactions() == block.entity.transactions())
+            .unwrap_or(false);
+        let mut committed = w.committed.lock().unwrap();
+        let expected_next = match *committed {
+            None => Some(0),
+            Some(c) => c.checked_add(1),
+        };
+        let acceptable = expected_next == Some(height) && authentic_header && authentic_txs;
+        let ok = acceptable && !chance(&mut rng, w.fault / 3);
+        if ok {
+            *committed = Some(height);
+        }
+        drop(committed);
+        w.push(Ev::Exec {
+            height,
+            id,
+            authentic_header,
+            authentic_txs,
+            expected_next,
+            ok,
+        });
+        if ok { Ok(()) } else { Err(anyhow::anyhow!("importer rejected block {height}")) }
+    }
+}
+
+// ------------------------------------------------------------------ one case
+
+fn is_bad(r: &PeerReportReason) -> bool {
+    !matches!(r, PeerReportReason::SuccessfulBlockImport)
+}
+
+fn run_case(args: &Args, report: &Report, cs: u64) {
+    let mut rng = rng_for(cs, &[0]);
+    let chain_len = rng.gen_range(6..=24u32);
+    let mut next_tx = 0u64;
+    let chain: Vec<SealedBlock> = (0..chain_len)
+        .map(|h| {
+            let n = rng.gen_range(0..=2);
+            let ids: Vec<u64> = (0..n)
+                .map(|_| {
+                    next_tx += 1;
+                    next_tx
+                })
+                .collect();
+            mk_block(h, &ids, h as u64 + 1)
+        })
+        .collect();
+    let fault = *pick(&mut rng, &[0u32, 8, 15, 30, 50]);
+    let c0: Option<u32> = *pick(&mut rng, &[None, None, Some(0), Some(2)]);
+    let params = Config {
+        block_stream_buffer_size: rng.gen_range(1..=4),
+        header_batch_size: rng.gen_range(1..=5),
+    };
+    let rounds = args.by_tier(8usize, 12);
+    let w = Arc::new(World {
+        seed: cs,
+        fault,
+        chain,
+        log: Default::default(),
+        attempts: Default::default(),
+        committed: Mutex::new(c0),
+        forged: Default::default(),
+        nonce: Default::default(),
+    });
+    let top = chain_len - 1;
+    let first_obs = rng.gen_range(c0.map(|c| c + 1).unwrap_or(0)..=top);
+    let state = SharedMutex::new(State::new(c0, Some(first_obs)));
+    let notify = Arc::new(Notify::new());
+    let mut import = Import::new(
+        state.clone(),
+        notify.clone(),
+        params,
+        Arc::new(P2p(w.clone())),
+        Arc::new(Imp(w.clone())),
+        Arc::new(Cons(w.clone())),
+    );
+    let rt = tokio::runtime::Builder::new_current_thread().enable_all().build().expect("runtime");
+    let (_tx, rx) = tokio::sync::watch::channel(fuel_core_services::State::Started);
+    let mut watcher: StateWatcher = rx.into();
+    let w2 = w.clone();
+    let mut timed_out = false;
+    let r = catch(|| {
+        rt.block_on(async {
+            let mut observed = first_obs;
+            for _round in 0..rounds {
+                let committed = *w2.committed.lock().unwrap();
+                if committed == Some(top) {
+                    break;
+                }
+                // raise the observed height now and then; always re-observe after a failed round
+                if committed.map(|c| c >= observed).unwrap_or(false) {
+                    observed = rng.gen_range(committed.unwrap_or(0) + 1..=top);
+                } else if chance(&mut rng, 40) {
+                    observed = rng.gen_range(observed..=top);
+                }
+                state.apply(|s| s.observe(observed));
+                w2.push(Ev::RoundStart { committed, observed });
+                // a concurrent observer that raises the target while the round runs
+                let st = state.clone();
+                let bump = if chance(&mut rng, 30) { Some(rng.gen_range(observed..=top)) } else { None };
+                let obs_task = tokio::spawn(async move {
+                    if let Some(b) = bump {
+                        yields(5).await;
+                        st.apply(|s| s.observe(b));
+                    }
+                });
+                notify.notify_one();
+                let res = tokio::time::timeout(std::time::Duration::from_secs(30), import.import(&mut watcher)).await;
+                let _ = obs_task.await;
+                if let Some(b) = bump {
+                    observed = observed.max(b);
+                }
+                match res {
+                    Ok(r) => w2.push(Ev::RoundEnd { ok: r.is_ok() }),
+                    Err(_) => {
+                        timed_out = true;
+                        break;
+                    }
+                }
+            }
+        })
+    });
+    drop(rt);
+    if let Err(p) = r {
+        // a panic inside the sync code (e.g. a debug assertion of the cache) is not what C26 talks about
+        report.inconclusive(format!("case {cs}: panic while driving Import::import: {p}"));
+        return;
+    }
+    if timed_out {
+        report.inconclusive(format!("case {cs}: import() did not return within the watchdog"));
+        return;
+    }
+    let mut log = w.log.lock().unwrap().clone();
+    judge(args, report, cs, &w, &mut log, params, c0);
+}
+
+fn judge(args: &Args, report: &Report, cs: u64, w: &World, log: &mut Vec<Ev>, params: Config, c0: Option<u32>) {
+    let st: u32 = args.extra.get("selftest").and_then(|s| s.parse().ok()).unwrap_or(0);
+    let sig = |s: &str| if st > 0 { format!("selftest:{s}") } else { s.to_string() };
+    // ---- self-test perturbations of the *observed* log
+    if st == 1 {
+        let ix: Vec<usize> = log
+            .iter()
+            .enumerate()
+            .filter(|(_, e)| matches!(e, Ev::Exec { ok: true, .. }))
+            .map(|(i, _)| i)
+            .collect();
+        if ix.len() >= 2 {
+            log.swap(ix[0], ix[1]);
+            // keep the importer's own expectation consistent with the swapped order so that only
+            // the oracle's ordering rule can notice
+        }
+    }
+    if st == 2 {
+        if let Some(i) = log.iter().position(|e| matches!(e, Ev::Report { reason, .. } if is_bad(reason))) {
+            log.remove(i);
+        }
+    }
+    if st == 3 {
+        if let Some(Ev::Exec { authentic_txs, .. }) = log.iter_mut().find(|e| matches!(e, Ev::Exec { ok: true, .. })) {
+            *authentic_txs = false;
+        }
+    }
+
+    report.eval();
+    report.count("cases");
+    let mut viol: Vec<(String, String)> = vec![];
+    // ---- order / authenticity of executions
+    let mut committed = c0;
+    let mut round_committed_start = c0;
+    let mut executed_ok_in_round: BTreeSet<u32> = BTreeSet::new();
+    let mut exec_calls_in_round: BTreeMap<u32, usize> = BTreeMap::new();
+    let mut checks: HashMap<BlockId, Vec<(usize, bool)>> = HashMap::new();
+    let mut suppliers: HashMap<BlockId, BTreeSet<PeerId>> = HashMap::new();
+    let mut round_failed_before = false;
+    let mut rounds_ok = 0u64;
+    let mut rounds_failed = 0u64;
+    let mut hdr_req_round: Vec<Range<u32>> = vec![];
+    let mut tx_req_round: Vec<Range<u32>> = vec![];
+    let mut progress_after_failure = false;
+    let mut shape: Vec<(u8, u32)> = vec![];
+    for (i, e) in log.iter().enumerate() {
+        match e {
+            Ev::RoundStart { .. } => {
+                round_committed_start = committed;
+                executed_ok_in_round.clear();
+                exec_calls_in_round.clear();
+                hdr_req_round.clear();
+                tx_req_round.clear();
+                report.count("rounds");
+            }
+            Ev::RoundEnd { ok } => {
+                if *ok {
+                    rounds_ok += 1;
+                } else {
+                    rounds_failed += 1;
+                    round_failed_before = true;
+                }
+                shape.push((if *ok { 1 } else { 2 }, executed_ok_in_round.len() as u32));
+            }
+            Ev::Headers { range, peer, ids, behaviour, .. } => {
+                report.count(&format!("p2p.headers.{behaviour}"));
+                hdr_req_round.push(range.clone());
+                if let Some(p) = peer {
+                    for id in ids {
+                        suppliers.entry(*id).or_default().insert(p.clone());
+                    }
+                }
+            }
+            Ev::Txs { range, behaviour, .. } => {
+                report.count(&format!("p2p.txs.{behaviour}"));
+                tx_req_round.push(range.clone());
+            }
+            Ev::Check { id, verdict, .. } => {
+                report.count(if *verdict { "consensus.accept" } else { "consensus.reject" });
+                checks.entry(*id).or_default().push((i, *verdict));
+            }
+            Ev::Exec {
+                height,
+                id,
+                authentic_header,
+                authentic_txs,
+                ok,
+                ..
+            } => {
+                report.count("exec.calls");
+                let want = match committed {
+                    None => Some(0),
+                    Some(c) => c.checked_add(1),
+                };
+                *exec_calls_in_round.entry(*height).or_default() += 1;
+                if Some(*height) != want {
+                    // where did this copy of the block come from: if the height was requested from the
+                    // network fewer times than it was executed in this round, one copy came out of the cache
+                    let fetched_n = hdr_req_round.iter().filter(|r| r.contains(height)).count();
+                    let kind = if executed_ok_in_round.contains(height) {
+                        if fetched_n < exec_calls_in_round[height] {
+                            "reexecuted_in_same_round source=cache"
+                        } else {
+                            "reexecuted_in_same_round source=network"
+                        }
+                    } else if committed.map(|c| *height <= c).unwrap_or(false) {
+                        "at_or_below_committed"
+                    } else {
+                        "skipped_ahead"
+                    };
+                    let fetched = hdr_req_round.iter().any(|r| r.contains(height));
+                    viol.push((
+                        format!("exec_not_next kind={kind}"),
+                        format!(
+                            "execute_and_commit called for height {height} while the committed height is {committed:?} \
+                             (round started at {round_committed_start:?}; heights executed in this round {executed_ok_in_round:?}; \
+                             height fetched from the network in this round: {fetched}; header batches requested this round {hdr_req_round:?})"
+                        ),
+                    ));
+                }
+                if !*authentic_header {
+                    viol.push((
+                        "exec_forged_header".into(),
+                        format!("block executed at {height} carries a header/seal that is not the authentic one"),
+                    ));
+                } else if !*authentic_txs {
+                    viol.push((
+                        "exec_transactions_do_not_match_header".into(),
+                        format!("block executed at {height} carries transactions that differ from the header's"),
+                    ));
+                }
+                let approved = checks.get(id).map(|v| v.iter().any(|(_, ok)| *ok)).unwrap_or(false);
+                if !approved {
+                    viol.push((
+                        "exec_without_consensus_approval".into(),
+                        format!("height {height} executed but no consensus check of its sealed header ever succeeded"),
+                    ));
+                }
+                if *ok {
+                    report.count("exec.ok");
+                    committed = Some(*height);
+                    executed_ok_in_round.insert(*height);
+                    if round_failed_before {
+                        progress_after_failure = true;
+                    }
+                    let from_net_hdr = hdr_req_round.iter().any(|r| r.contains(height));
+                    let from_net_txs = tx_req_round.iter().any(|r| r.contains(height));
+                    if !from_net_txs {
+                        report.count("cache.block_hits");
+                    } else if !from_net_hdr {
+                        report.count("cache.header_hits");
+                    }
+                } else {
+                    report.count("exec.failed");
+                }
+            }
+            Ev::Report { reason, .. } => {
+                report.count(&format!("report.{reason:?}"));
+            }
+        }
+    }
+    // ---- peer reports
+    // required: defects that the pipeline certainly reached
+    let mut need: BTreeMap<(PeerId, String), (u64, String)> = BTreeMap::new();
+    let mut allow: BTreeMap<(PeerId, String), u64> = BTreeMap::new();
+    let mut bad_check_total = 0u64;
+    let mut bad_check_suppliers: BTreeSet<PeerId> = BTreeSet::new();
+    for e in log.iter() {
+        match e {
+            Ev::Headers {
+                peer: Some(p),
+                missing: true,
+                range,
+                behaviour,
+                ..
+            } => {
+                let k = (p.clone(), "MissingBlockHeaders".to_string());
+                let n = need.entry(k.clone()).or_insert((0, String::new()));
+                n.0 += 1;
+                n.1 = format!("headers {range:?} answered `{behaviour}`");
+                *allow.entry(k).or_default() += 1;
+            }
+            Ev::Txs {
+                peer: Some(p),
+                missing,
+                garbage_at,
+                range,
+                behaviour,
+                ..
+            } => {
+                if *missing {
+                    let k = (p.clone(), "MissingTransactions".to_string());
+                    let n = need.entry(k.clone()).or_insert((0, String::new()));
+                    n.0 += 1;
+                    n.1 = format!("transactions {range:?} answered `{behaviour}`");
+                    *allow.entry(k).or_default() += 1;
+                }
+                if let Some(g) = garbage_at {
+                    let k = (p.clone(), "InvalidTransactions".to_string());
+                    *allow.entry(k.clone()).or_default() += 1;
+                    if *g == 0 {
+                        let n = need.entry(k).or_insert((0, String::new()));
+                        n.0 += 1;
+                        n.1 = format!("transactions {range:?} answered `{behaviour}` (first list wrong)");
+                    }
+                }
+            }
+            Ev::Check { id, verdict: false, .. } => {
+                bad_check_total += 1;
+                if let Some(s) = suppliers.get(id) {
+                    bad_check_suppliers.extend(s.iter().cloned());
+                }
+            }
+            _ => {}
+        }
+    }
+    let mut got: BTreeMap<(PeerId, String), u64> = BTreeMap::new();
+    let mut bad_header_reports = 0u64;
+    for e in log.iter() {
+        if let Ev::Report { peer, reason } = e {
+            if *reason == PeerReportReason::BadBlockHeader {
+                bad_header_reports += 1;
+                if !bad_check_suppliers.contains(peer) {
+                    viol.push((
+                        "honest_peer_reported reason=BadBlockHeader".into(),
+                        format!("{} reported for a bad header but never supplied a header that failed the check", peer_name(peer)),
+                    ));
+                }
+            } else if is_bad(reason) {
+                *got.entry((peer.clone(), format!("{reason:?}"))).or_default() += 1;
+            }
+        }
+    }
+    if bad_header_reports != bad_check_total {
+        viol.push((
+            if bad_header_reports < bad_check_total {
+                "bad_peer_not_reported reason=BadBlockHeader".to_string()
+            } else {
+                "honest_peer_reported reason=BadBlockHeader".to_string()
+            },
+            format!("{bad_check_total} sealed headers failed the consensus check, {bad_header_reports} BadBlockHeader reports were made"),
+        ));
+    }
+    for ((p, reason), (n, why)) in need.iter() {
+        let g = got.get(&(p.clone(), reason.clone())).copied().unwrap_or(0);
+        if g < *n {
+            viol.push((
+                format!("bad_peer_not_reported reason={reason}"),
+                format!("{} gave {n} answers requiring a {reason} report (e.g. {why}) but was reported {g} times", peer_name(p)),
+            ));
+        }
+    }
+    for ((p, reason), g) in got.iter() {
+        let a = allow.get(&(p.clone(), reason.clone())).copied().unwrap_or(0);
+        if *g > a {
+            viol.push((
+                format!("honest_peer_reported reason={reason}"),
+                format!("{} was reported {g} times for {reason} but gave only {a} such answers", peer_name(p)),
+            ));
+        }
+    }
+    report.add("rounds.ok", rounds_ok);
+    report.add("rounds.failed", rounds_failed);
+    report.count(&format!("cfg.batch.{}", params.header_batch_size));
+    report.count(&format!("cfg.buffer.{}", params.block_stream_buffer_size));
+    report.count(&format!("cfg.fault.{}", w.fault));
+    if progress_after_failure {
+        report.count("cases.progress_after_failed_round");
+        report.distinct(&(params.header_batch_size, params.block_stream_buffer_size, c0, w.chain.len(), &shape));
+    }
+    if committed == Some(w.chain.len() as u32 - 1) {
+        report.count("cases.fully_synced");
+    }
+    if report.wants_sample() && rounds_failed > 0 {
+        report.sample(json!({"case_seed": cs, "batch": params.header_batch_size, "buffer": params.block_stream_buffer_size,
+            "fault_percent": w.fault, "chain_len": w.chain.len(), "initial_committed": c0,
+            "events": log.iter().take(40).map(ev_json).collect::<Vec<_>>()}));
+    }
+    if !viol.is_empty() {
+        let evs: Vec<Value> = log.iter().map(ev_json).collect();
+        let mut seen = BTreeSet::new();
+        for (s, d) in viol {
+            if !seen.insert(s.clone()) {
+                continue;
+            }
+            report.violation(
+                sig(&s),
+                format!(
+                    "{d}\ncase: batch size {}, buffer {}, fault {}%, chain 0..{}, initially committed {c0:?}",
+                    params.header_batch_size,
+                    params.block_stream_buffer_size,
+                    w.fault,
+                    w.chain.len()
+                ),
+                json!({"case_seed": cs, "events": evs}),
+            );
+        }
+    }
+}
 
 fn main() {
     let args = Args::parse();
     install_quiet_panic_hook();
     let report = Report::new(&args.property);
+    let mut rule = String::new();
+    let mut assumptions: Vec<&str> = vec![];
     match args.property.as_str() {
+        "C26" => {
+            if let Some(rep) = read_replay(&args) {
+                let cs = rep.get("case_seed").and_then(|v| v.as_u64()).unwrap_or(0);
+                run_case(&args, &report, cs);
+            } else {
+                let shards = args.by_tier(32usize, 64);
+                let per = args.by_tier(1200usize, 9000);
+                let a = args.clone();
+                let r = report.clone();
+                run_shards(&report, &args, shards, move |_i, s| {
+                    for it in 0..per {
+                        run_case(&a, &r, mix(s, &[it as u64]));
+                    }
+                });
+                if !args.extra.contains_key("selftest") {
+                    let q = !args.is_thorough();
+                    report.require("cases", if q { 30_000 } else { 400_000 });
+                    report.require("exec.ok", if q { 300_000 } else { 4_000_000 });
+                    report.require("exec.failed", 10_000);
+                    report.require("rounds.failed", 30_000);
+                    report.require("cases.progress_after_failed_round", 10_000);
+                    report.require("cache.block_hits", 10_000);
+                    report.require("cache.header_hits", 10_000);
+                    report.require("consensus.reject", 5_000);
+                    for k in ["error", "none", "empty", "short", "wrong_height", "forged", "extra"] {
+                        report.require(&format!("p2p.headers.{k}"), 2000);
+                    }
+                    for k in ["error", "none", "short", "garbage_first", "garbage_any", "extra"] {
+                        report.require(&format!("p2p.txs.{k}"), 2000);
+                    }
+                    for k in ["BadBlockHeader", "MissingBlockHeaders", "MissingTransactions", "InvalidTransactions", "SuccessfulBlockImport"] {
+                        report.require(&format!("report.{k}"), 5000);
+                    }
+                }
+            }
+            rule = "a case = authentic chain of 6..24 blocks, batch size 1..5, stream buffer 1..4, a fault rate, and up to 8 \
+                    import() rounds on one Import (cache kept) with observed-height raises before and during rounds; peer / \
+                    consensus / importer answers are a pure function of (case seed, request, attempt). Non-trivial = a round \
+                    failed and a later round executed at least one block; distinct = (batch, buffer, initial height, chain \
+                    length, per-round (result, blocks executed))."
+                .to_string();
+            assumptions = vec![
+                "the harness ports log every call at the boundary; the oracle sees nothing inside Import",
+                "a header is authentic iff it is the generated chain's header for its height; the consensus stub approves exactly those (minus injected transient failures)",
+                "report obligations are limited to defects the pipeline certainly reaches: missing/misplaced headers, a header failing the check, data:None transactions, a wrong first transaction list",
+            ];
+        }
         other => report.inconclusive(format!("property {other} not implemented in this monitor")),
     }
-    report.finish(&args, "exploration", "", false, &[]);
+    report.finish(&args, "exploration", &rule, false, &assumptions);
 }
